@@ -106,6 +106,20 @@ def reduced_dim(lb, ub):
     return int(np.count_nonzero(~fixed))
 
 
+def clamp_npt(spec):
+    """Keep a requested nb_points inside the documented range for the
+    REDUCED dimension (variables fixed by the bounds are eliminated)."""
+    o = spec.get("options") or {}
+    if "nb_points" in o and spec.get("bounds"):
+        nred = reduced_dim(spec["bounds"]["lb"], spec["bounds"]["ub"])
+        if nred >= 1:
+            o["nb_points"] = int(min(max(o["nb_points"], nred + 1),
+                                     (nred + 1) * (nred + 2) // 2))
+        else:
+            o.pop("nb_points")
+    return spec
+
+
 def place_x0(rng, x0, lb, ub, where=None):
     """Move x0 inside / on / outside the box."""
     x0 = np.array(x0, dtype=float)
